@@ -86,6 +86,20 @@ def run(F, R):
                 stale = x in reach_in(S, S.succ[sn], cx, cut_nodes=q_calls)
                 R.check("C12-R1", "requeried-before-rearm:" + _k(cx), not stale, "the policy is asked again before the schedule timer is re-armed", "the schedule timer is re-armed with a timing computed before the previous wait", S.nodes[x].loc())
 
+    # the main loop: every return to the wait (timer fired, request throttled, check finished) goes through a fresh query
+    if mv is not None and qv is not None:
+        for (cx, sn, info) in select_sites(sm, S):
+            if cx is not S.root:
+                continue
+            arm_fn = W.by_id[mv.body["parent"]]["item"] if mv.body.get("parent") in W.by_id else "make_wait"
+            if not any(a_["kind"] == "timer" and arm_fn in a_.get("render", "") for a_ in info.values()):
+                continue   # the select that runs beside a check: no schedule timer in it
+            q_calls = [n.idx for n in S.nodes if n.ctx is cx and n.idx in S.live and n.term["k"] == "call" and n.term.get("callee_id") == qv.body.get("parent")]
+            stale = sn in reach_in(S, S.succ[sn], cx, cut_nodes=q_calls)
+            p_ = path(S, S.succ[sn], [sn], cut_nodes=q_calls) if stale else None
+            R.check("C12-R1", "fresh-query-before-every-wait:" + _k(cx), bool(q_calls) and not stale, "the main wait is only entered after asking the policy again",
+                    "the main wait can be re-entered without asking the policy for the next check time (stale timers, no ScheduleChange): %s" % (S.fmt_path(p_) if p_ else ""), S.nodes[sn].loc())
+
     # ---------------------------------------------------------------- R2 both timers must fire
     R.rule("C12-R2", "with a minimum wait the two timers are combined conjunctively (join); without it exactly wait_until(time) is armed; arguments are the timing's fields")
     if mv is not None:
@@ -109,7 +123,11 @@ def run(F, R):
             R.check("C12-R2", "conjunctive", con and not dis and not has_sel_closure, "combinators: %s" % comb, "the two timers are combined with %s: a check can start before both fired" % (dis or comb or "nothing"), lib.loc(mv, sw))
             exp_for = "wait_for(param1.0.timer, param1.1.minimum_wait@Some.0)"
             exp_until = "wait_until(param1.0.timer, param1.1.time)"
-            R.check("C12-R2", "some-arm-arguments", exp_for in rs and exp_until in rs, rs[:200], "timers armed as %s" % rs[:200])
+            # every way the Some(minimum_wait) arm can produce its future arms both timers (a merged value with one alternative
+            # that arms only the time bound is a fast path around the minimum wait)
+            alts_ = [terms.render(mv, a_, W, {}) for a_ in lib.alts(some)] if some else []
+            lacking = [a_[:120] for a_ in alts_ if not (exp_for in a_ and exp_until in a_ and any(("%s(" % cj) in a_ for cj in CONJUNCTIVE))]
+            R.check("C12-R2", "some-arm-arguments", bool(alts_) and not lacking, rs[:200], "with a minimum wait the function can arm %s (not both timers joined)" % lacking)
             R.check("C12-R2", "none-arm", exp_until in rn and "wait_for(" not in rn, rn[:120], "without a minimum wait the function arms %s" % rn[:120])
             joins = [x for x in walk(some or ("undef", 0)) if x[0] == "call" and lib.norm(x[1]).split("::")[-1] in CONJUNCTIVE]
             if joins:
